@@ -3,10 +3,12 @@
   and its field handlers, `_TzdbStreamData.__init__`/`create_zone`/`_from_stream`,
   `TzdbDateTimeZoneSource.from_stream/get_ids/for_id`, and `loadAndUse` = load, list ids, fetch every zone.
 
-  `…Raw` functions keep the failure kind the pinned code produces (`struct.error`, `ValueError`,
-  `UnicodeDecodeError`, `OverflowError`, `KeyError`, `IndexError`, `RuntimeError`, `InvalidPyodaDataError`).
-  The INTENDED behaviour (C20; DESIGN §7 row 14) translates every failure to `InvalidPyodaDataError` at the
-  entry points `from_stream` and `for_id`/`create_zone`: `fromStream`, `forId`, `loadAndUse`.
+  `…Body` functions are what runs inside the `try` blocks of the two entry points and keep the failure kind raised
+  there (`struct.error`, `ValueError`, `UnicodeDecodeError`, `OverflowError`, `KeyError`, `IndexError`,
+  `RuntimeError`, `InvalidPyodaDataError`); `fromStreamRaw`, `createZone`, `forIdRaw`, `loadAndUseRaw` are the entry
+  points as the code is written since the repair be23543 (`translate` with the two `except` tuples).
+  `fromStream`, `forId`, `loadAndUse` are the SPECIFICATION (C20): a result or `InvalidPyodaDataError`, nothing else.
+  `PyodaProofs/C20Kinds.lean` proves that the `except` tuples are sufficient, i.e. that Raw = specified.
 -/
 import PyodaModel.Codec.Tail
 
@@ -154,9 +156,27 @@ def streamDataOfBuilder (b : Builder) : R StreamData :=
     .ok ⟨pool, b.zoneFields.foldl (fun d z => dictInsert d z.1 z.1) idMap, version, b.zoneFields⟩
   | _, _, _, _ => .error .invalidData
 
-/-- `_TzdbStreamData._from_stream` on the pinned tree: `struct.unpack('i', stream.read(4))` (`struct.error`
-    on a short header), version 0 only, fields, required-field checks -/
-def fromStreamRaw (bytes : Bytes) : R StreamData :=
+/-- exception translation of the repaired entry points: `except InvalidPyodaDataError: raise` /
+    `except (<caught>) as e: raise InvalidPyodaDataError(...) from e`; anything else propagates -/
+def translate {α} (caught : PyExc → Bool) (r : R α) : R α :=
+  match r with
+  | .ok a => .ok a
+  | .error e => if caught e then .error .invalidData else .error e
+
+/-- `_from_stream` catches `(ValueError, OverflowError, LookupError, struct.error)`
+    (`UnicodeDecodeError` is a `ValueError`; `KeyError`/`IndexError` are `LookupError`s) -/
+def caughtAtFromStream : PyExc → Bool
+  | .valueError | .unicodeError | .overflowError | .keyError | .indexError | .structError => true
+  | _ => false
+
+/-- `create_zone` catches `(ValueError, OverflowError, LookupError, RuntimeError, struct.error)` -/
+def caughtAtCreateZone : PyExc → Bool
+  | .valueError | .unicodeError | .overflowError | .keyError | .indexError | .structError | .runtimeError => true
+  | _ => false
+
+/-- the body of `_TzdbStreamData._from_stream` inside its `try`: `struct.unpack('i', stream.read(4))`
+    (`struct.error` on a short header), version 0 only, fields, required-field checks -/
+def fromStreamBody (bytes : Bytes) : R StreamData :=
   match bytes with
   | b0 :: b1 :: b2 :: b3 :: rest =>
     if b0 ≠ 0 ∨ b1 ≠ 0 ∨ b2 ≠ 0 ∨ b3 ≠ 0 then .error .invalidData
@@ -165,29 +185,40 @@ def fromStreamRaw (bytes : Bytes) : R StreamData :=
       streamDataOfBuilder b
   | _ => .error .structError
 
+/-- `_TzdbStreamData._from_stream` / `TzdbDateTimeZoneSource.from_stream` as the code is written -/
+def fromStreamRaw (bytes : Bytes) : R StreamData := translate caughtAtFromStream (fromStreamBody bytes)
+
 /-- `TzdbDateTimeZoneSource.get_ids()` -/
 def getIds (d : StreamData) : List Str := d.idMap.map (·.1)
 
-/-- `TzdbDateTimeZoneSource.for_id(id)` on the pinned tree: unknown id *or empty canonical id* → `ValueError`;
-    `__zone_fields[canonical_id]` → `KeyError`; then `create_zone` -/
+/-- the body of `_TzdbStreamData.create_zone` inside its `try`: `__zone_fields[canonical_id]` (`KeyError`), then
+    the zone is decoded and constructed -/
+def createZoneBody (d : StreamData) (id canonical : Str) : R ZoneValue :=
+  match d.zoneFields.find? (·.1 = canonical) with
+  | none => .error .keyError
+  | some (_, field) => createZoneRaw (some d.stringPool) id field
+
+/-- `_TzdbStreamData.create_zone(id, canonical_id)` as the code is written -/
+def createZone (d : StreamData) (id canonical : Str) : R ZoneValue :=
+  translate caughtAtCreateZone (createZoneBody d id canonical)
+
+/-- `TzdbDateTimeZoneSource.for_id(id)` as the code is written: an id that is not a key of the map → `ValueError`
+    (the documented answer for an unknown id); otherwise `create_zone` (an empty canonical id is looked up like any
+    other and fails there) -/
 def forIdRaw (d : StreamData) (id : Str) : R ZoneValue :=
   match dictGet? d.idMap id with
   | none => .error .valueError
-  | some canonical =>
-    if canonical.isEmpty then .error .valueError
-    else match d.zoneFields.find? (·.1 = canonical) with
-      | none => .error .keyError
-      | some (_, field) => createZoneRaw (some d.stringPool) id field
+  | some canonical => createZone d id canonical
 
-/-- exception translation at an entry point -/
+/-- the documented outcome only -/
 def toInvalidData {α} (r : R α) : R α :=
   match r with
   | .ok a => .ok a
   | .error _ => .error .invalidData
 
-/-- INTENDED `TzdbDateTimeZoneSource.from_stream` -/
+/-- SPECIFIED `TzdbDateTimeZoneSource.from_stream`: a result or `InvalidPyodaDataError` -/
 def fromStream (bytes : Bytes) : R StreamData := toInvalidData (fromStreamRaw bytes)
-/-- INTENDED `for_id` for an id listed by `get_ids()` -/
+/-- SPECIFIED `for_id` for an id listed by `get_ids()` -/
 def forId (d : StreamData) (id : Str) : R ZoneValue := toInvalidData (forIdRaw d id)
 
 /-- fetch every listed zone, stopping at the first failure -/
@@ -198,12 +229,13 @@ def fetchAll (f : Str → R ZoneValue) : List Str → R Nat
     let n ← fetchAll f ids
     .ok (n + 1)
 
-/-- load, list ids, fetch every zone — as the pinned code behaves (first failure kind kept) -/
+/-- load, list ids, fetch every zone — as the code is written (a failure kind the entry points do not translate
+    would show here) -/
 def loadAndUseRaw (bytes : Bytes) : R Nat := do
   let d ← fromStreamRaw bytes
   fetchAll (forIdRaw d) (getIds d)
 
-/-- INTENDED: the same with the documented error only -/
+/-- SPECIFIED: the same with the documented error only -/
 def loadAndUse (bytes : Bytes) : R Nat := do
   let d ← fromStream bytes
   fetchAll (forId d) (getIds d)
